@@ -337,6 +337,29 @@ def raw_dump(raw):
     return dump_tree(raw, True)
 
 
+def raw_flat(raw):
+    """Flat variant of raw_dump via one visititems traversal: {abs path: [kind, attrs, value]} (cheaper change detection)."""
+    out = {"/": ["g", {k: canon_val(v) for k, v in raw.attrs.items()}, None]}
+
+    def cb(name, obj):
+        at = {k: canon_val(v) for k, v in obj.attrs.items()}
+        if is_grouplike(obj):
+            out["/" + name] = ["g", at, None]
+        else:
+            out["/" + name] = ["d", at, canon_val(obj[()])]
+
+    raw.visititems(cb)
+    return out
+
+
+def flat_diff(before, after) -> str:
+    a, b = set(before), set(after)
+    if a != b:
+        return f"added {sorted(b - a)[:4]} removed {sorted(a - b)[:4]}"
+    ch = [p for p in before if before[p] != after[p]]
+    return f"values/attributes changed at {ch[:4]}"
+
+
 def dump_paths(d, prefix=""):
     """[(abs path, 'g'|'d')] of a dump, pre-order, sorted keys."""
     res = []
